@@ -338,6 +338,68 @@ func opReadRequest(et uint8, b []byte) op {
 	}, fmt.Sprintf("R 1 %d %s", et, hx(b))}
 }
 
+// gateReader hands out b; when the read position reaches `cut` it cancels the request's context
+// and dawdles before going on, as a slow peer would.
+type gateReader struct {
+	b        []byte
+	pos, cut int
+	cancel   func()
+	fired    bool
+}
+
+func (g *gateReader) Read(p []byte) (int, error) {
+	if !g.fired && g.pos >= g.cut {
+		g.fired = true
+		g.cancel()
+		for i := 0; i < 8; i++ {
+			runtime.Gosched()
+		}
+		time.Sleep(30 * time.Microsecond)
+	}
+	if g.pos >= len(g.b) {
+		return 0, io.EOF
+	}
+	end := len(g.b)
+	if !g.fired && g.cut < end {
+		end = g.cut
+	}
+	n := copy(p, g.b[g.pos:end])
+	g.pos += n
+	return n, nil
+}
+
+// opReadRequestCancel: ReadRequest under a context that is cancelled while the request is being
+// read. The property says nothing about contexts, so a ReadRequest that gives up with the
+// context's error is not held against the implementation (the request is then read again the
+// plain way); what counts is that this and every concurrent operation still get their own result.
+func opReadRequestCancel(et uint8, b []byte, cut int) op {
+	plain := opReadRequest(et, b)
+	return op{"ReadRequest (context cancelled mid-read)", func() (res string) {
+		gaveUp := false
+		if p := safely(func() {
+			ctx, cancel := context.WithCancel(context.Background())
+			defer cancel()
+			body := &structBody{}
+			w, err := binary.Default.ReadRequest(ctx, wire.EnvelopeType(int8(et)), &gateReader{b: b, cut: cut, cancel: cancel}, body)
+			if err != nil {
+				if errors.Is(err, context.Canceled) {
+					gaveUp = true
+					return
+				}
+				res = "err"
+				return
+			}
+			res = fmt.Sprintf("ok %s %s", responderText(w), body.v.Text())
+		}); p != "" {
+			return "panic " + p
+		}
+		if gaveUp {
+			return plain.run()
+		}
+		return
+	}, plain.model}
+}
+
 type bodyEnveloper struct{ v *wv.V }
 
 func (e bodyEnveloper) MethodName() string              { return "bareMethod" }
@@ -662,7 +724,11 @@ func randomOps(r *rng.R, k int) []op {
 				case 0:
 					ops = append(ops, opEnvDecode(b))
 				case 1:
-					ops = append(ops, opReadRequest(et, b))
+					if r.Bool() {
+						ops = append(ops, opReadRequestCancel(et, b, r.Intn(len(b)+1)))
+					} else {
+						ops = append(ops, opReadRequest(et, b))
+					}
 				default:
 					ops = append(ops, opDecodeRequest(et, b))
 				}
@@ -898,8 +964,13 @@ func mergeRound(r *rng.R, k int, res *result) {
 	conflict := r.Chance(1, 4)
 	var opParts []string
 	all := map[string]string{}
+	// one round in three: generators share names (the same plugin given twice is two generators)
+	sameNames := r.Chance(1, 3)
 	for i := 0; i < k; i++ {
 		g := &fakeGen{name: fmt.Sprintf("g%d", i), files: map[string][]byte{}, spin: r.Intn(30)}
+		if sameNames {
+			g.name = fmt.Sprintf("g%d", i/2)
+		}
 		var keys []string
 		for f := r.Intn(4); f > 0; f-- {
 			p := fmt.Sprintf("g%d/f%d.go", i, f)
@@ -925,7 +996,7 @@ func mergeRound(r *rng.R, k int, res *result) {
 	for i := 0; i < k; i++ {
 		ord = append(ord, fmt.Sprint(i))
 	}
-	resp, err := msg.Generate(&api.GenerateServiceRequest{})
+	resp, err := generateOrGiveUp(msg, &api.GenerateServiceRequest{}, res, fmt.Sprintf("K=%d conflict=%v", k, conflict))
 	impl := "err"
 	if err == nil {
 		var items []string
@@ -947,8 +1018,33 @@ func mergeRound(r *rng.R, k int, res *result) {
 	}
 	res.Merges++
 	res.Hist["merge "+strings.Fields(impl)[0]]++
+	if sameNames {
+		res.Hist["merge of generators that share names"]++
+	}
 	res.ModelOps = append(res.ModelOps, modelOp{Driver: "proto", Kind: "C18 MultiServiceGenerator vs mergePlugins", Impl: impl,
 		Op: fmt.Sprintf("XM %d %s %s", k, strings.Join(opParts, " "), strings.Join(ord, ","))})
+}
+
+// generateOrGiveUp runs the fan-out; if it has not returned after 30 s (every generator returns at once:
+// something waits for a lock that is never released) the finding is recorded and the process ends.
+func generateOrGiveUp(msg verifhook.MultiServiceGenerator, req *api.GenerateServiceRequest, res *result, input string) (*api.GenerateServiceResponse, error) {
+	type out struct {
+		resp *api.GenerateServiceResponse
+		err  error
+	}
+	ch := make(chan out, 1)
+	go func() {
+		resp, err := msg.Generate(req)
+		ch <- out{resp, err}
+	}()
+	select {
+	case o := <-ch:
+		return o.resp, o.err
+	case <-time.After(30 * time.Second):
+		res.Mismatches = append(res.Mismatches, mismatch{Kind: "C18 plugin fan-out does not return", Input: input, Got: "still running after 30 s", Want: "a merged response or an error"})
+		finish(res)
+		return nil, nil
+	}
 }
 
 // ---- plugins behind the real transport handles ----
@@ -991,8 +1087,12 @@ func transportRound(r *rng.R, k int, res *result) {
 	var msg verifhook.MultiServiceGenerator
 	var plugins []*memPlugin
 	all := map[string]string{}
+	sameNames := r.Chance(1, 3)
 	for i := 0; i < k; i++ {
 		p := &memPlugin{name: fmt.Sprintf("p%d", i), files: map[string][]byte{}, spin: r.Intn(20)}
+		if sameNames {
+			p.name = fmt.Sprintf("p%d", i/2)
+		}
 		for f := 1 + r.Intn(3); f > 0; f-- {
 			path := fmt.Sprintf("p%d/f%d.go", i, f)
 			p.files[path] = []byte(fmt.Sprintf("%d-%d", i, f))
@@ -1021,7 +1121,7 @@ func transportRound(r *rng.R, k int, res *result) {
 		req.Services[id] = &api.Service{Name: fmt.Sprintf("S%d", id), ThriftName: fmt.Sprintf("S%d", id), Functions: []*api.Function{}, ModuleID: 1}
 	}
 	want := append([]api.ServiceID(nil), req.RootServices...)
-	resp, err := msg.Generate(req)
+	resp, err := generateOrGiveUp(msg, req, res, fmt.Sprintf("K=%d (transport-backed)", k))
 	input := fmt.Sprintf("K=%d roots=%v", k, want)
 	same := func(a, b []api.ServiceID) bool {
 		if len(a) != len(b) {
